@@ -554,6 +554,15 @@ func TestVerif_C12(t *testing.T) {
 					}
 					target.active = deployed
 					effective = pendingSnapshot
+					// barrier: reservations are only served again once the service loop has taken in
+					// the refreshed inventory, so a (hopeless) request returning proves that no
+					// inventory check is in flight any more when the next event is published
+					huge := []c12Unit{{cpu: 1 << 40, mem: 1 << 40, sto: 1 << 40, count: 1}}
+					for _, svc := range []*c12Svc{A, B} {
+						if _, err := svc.is.reserve(c12Order(5000), c12Group("barrier", huge)); err == nil {
+							fail("c12-overcommit", "a reservation of 2^40 cpu units was granted")
+						}
+					}
 				}
 				lastWasStatusWithMulti = false
 			},
